@@ -236,7 +236,7 @@ def gen_compute(rng, tier):
             sec = rand_sec(rng, pardim)
             specs.append({'kind': 'obj_section', 'a': a, 'sec': sec})
         if pardim in (2, 3):
-            dim = len(a['cps'][0][0]) - (1 if a['rational'] else 0) if pardim == 2 else 3
+            dim = np.array(a['cps']).shape[-1] - (1 if a['rational'] else 0)
             if dim == pardim:
                 specs.append({'kind': 'rh', 'a': a})
     return specs
@@ -277,14 +277,23 @@ def model_queries(rng, c, nlook=3, nvsec=2):
 
 
 def finish_model(rng, c, twins=True, frh=False, batches=None, noise=True, flags=(), nlook=3, nvsec=2):
+    """One or two specs: the complex with section/lookup queries, and (same complex) NodeView.section queries."""
     spec = {'kind': 'model', 'family': c['family'], 'pardim': c['pardim'], 'dim': c['dim'], 'patches': c['patches'],
             'noise': c.get('noise'), 'frh': bool(frh), 'flags': list(c.get('flags', [])) + list(flags),
             'orients': c.get('orients'), 'order': c.get('order')}
     if batches is None:
         batches = [[bool(twins), list(range(len(c['patches'])))]]
     spec['batches'] = batches
-    spec['queries'] = model_queries(rng, c, nlook, nvsec)
-    return spec
+    qs = model_queries(rng, c, nlook, nvsec)
+    spec['queries'] = [q for q in qs if q[0] != 'vsec']
+    out = [spec]
+    vq = [q for q in qs if q[0] == 'vsec']
+    if vq:
+        v = dict(spec)
+        v['queries'] = vq
+        v['only_queries'] = True
+        out.append(v)
+    return out
 
 
 def mixed_rational(rng, c):
@@ -316,7 +325,7 @@ def gen_models(rng, tier):
         twins = rng.random() < 0.7
         if 'self2' in base['flags']:
             twins = rng.random() < 0.3
-        specs.append(finish_model(rng, c, twins=twins))
+        specs.extend(finish_model(rng, c, twins=twins))
     # fixed families that must be present in every run
     reps = 2 if tier == 'quick' else 12
     for r in range(reps):
@@ -328,18 +337,18 @@ def gen_models(rng, tier):
                 if pardim == 3 and name == 'O' and r > 0 and tier == 'quick':
                     continue
                 base = cx.cells_complex(rng, pardim, 3 if pardim == 3 else 2, cells, [2] * pardim, rational=(r % 2 == 1), family=name + '-shape')
-                specs.append(finish_model(rng, cx.scramble(rng, base, noise=NOISE if r % 2 == 0 else None), nlook=2, nvsec=1))
-            specs.append(finish_model(rng, cx.scramble(rng, cx.ring_complex(rng, pardim, rng.choice([3, 4]), 1, rational=(r % 2 == 1)), noise=NOISE)))
-            specs.append(finish_model(rng, cx.scramble(rng, cx.torus_complex(rng, pardim, 3, 3, rational=False), noise=None), twins=False))
-            specs.append(finish_model(rng, cx.scramble(rng, cx.torus_complex(rng, pardim, 3, 3, rational=False), noise=None), twins=True))
+                specs.extend(finish_model(rng, cx.scramble(rng, base, noise=NOISE if r % 2 == 0 else None), nlook=2, nvsec=1))
+            specs.extend(finish_model(rng, cx.scramble(rng, cx.ring_complex(rng, pardim, rng.choice([3, 4]), 1, rational=(r % 2 == 1)), noise=NOISE)))
+            specs.extend(finish_model(rng, cx.scramble(rng, cx.torus_complex(rng, pardim, 3, 3, rational=False), noise=None), twins=False))
+            specs.extend(finish_model(rng, cx.scramble(rng, cx.torus_complex(rng, pardim, 3, 3, rational=False), noise=None), twins=True))
         # twins: rejected / accepted / TwinError through a second batch
         for pardim in (1, 2, 3):
             if pardim == 3 and r > 0 and tier == 'quick':
                 continue
             t = cx.scramble(rng, cx.twins_complex(rng, pardim, 3, rational=(r % 2 == 1)), noise=None)
-            specs.append(finish_model(rng, t, twins=True, nlook=1, nvsec=0))
-            specs.append(finish_model(rng, t, twins=False, nlook=1, nvsec=1))
-            specs.append(finish_model(rng, t, batches=[[False, [0, 1]], [True, [2]]], nlook=1, nvsec=0))
+            specs.extend(finish_model(rng, t, twins=True, nlook=1, nvsec=0))
+            specs.extend(finish_model(rng, t, twins=False, nlook=1, nvsec=1))
+            specs.extend(finish_model(rng, t, batches=[[False, [0, 1]], [True, [2]]], nlook=1, nvsec=0))
         # duplicates: the same patch again in another orientation
         for pardim in (1, 2, 3):
             base = cx.random_complex(rng, tier, pardim, allow=('grid',))
@@ -348,15 +357,15 @@ def gen_models(rng, tier):
             o = rand_ori(rng, pardim)
             c['patches'] = c['patches'] + [cx.reorient(c['patches'][k], o[0], o[1])]
             c['flags'] = list(c['flags']) + ['duplicate-patch']
-            specs.append(finish_model(rng, c))
+            specs.extend(finish_model(rng, c))
         # handedness
         for pardim in (2, 3):
             base = cx.cells_complex(rng, pardim, pardim, cx.grid_cells([2] + [1] * (pardim - 1)), [rng.choice([2, 3]) for _ in range(pardim)],
                                     rational=(r % 2 == 1), family='grid-2x1-frh')
-            specs.append(finish_model(rng, cx.scramble(rng, base, noise=None, keep_right=True), frh=True, flags=['all-right']))
-            specs.append(finish_model(rng, cx.scramble(rng, base, noise=None, reorient_prob=1.0), frh=True))
+            specs.extend(finish_model(rng, cx.scramble(rng, base, noise=None, keep_right=True), frh=True, flags=['all-right']))
+            specs.extend(finish_model(rng, cx.scramble(rng, base, noise=None, reorient_prob=1.0), frh=True))
         base = cx.cells_complex(rng, 2, 3, cx.grid_cells([2, 1]), [2, 2], family='grid-2x1-frh')
-        specs.append(finish_model(rng, cx.scramble(rng, base), frh=True, flags=['frh-wrong-dims']))
+        specs.extend(finish_model(rng, cx.scramble(rng, base), frh=True, flags=['frh-wrong-dims']))
     return specs
 
 
@@ -386,7 +395,7 @@ def model_line(s):
         n = int(np.prod(s['shape'])) if s['shape'] else 1
         return line('ori_map_array', s['o'], [s['shape'], list(range(n))])
     if k == 'section_maps':
-        return line('ori_map_section', s['o'], enc_sec(s['sec'])) + ' ' + line('x', s['o'], enc_sec(s['sec']))[2:]
+        return line('ori_section_maps', s['o'], enc_sec(s['sec']))
     if k == 'ifem':
         return line('ori_ifem', s['o'])
     if k == 'sections':
@@ -520,14 +529,21 @@ def run_impl(sp, s):
 
 def compare(s, iv, mv):
     k = s['kind']
+    note = ''
     if k == 'model' and not isinstance(iv, Err) and isinstance(mv, list) and len(mv) == 6:
         # vsec answers of the model are pairs [property frame, code frame]; the property frame counts
         mv = list(mv)
         qs = []
-        for q, a in zip(s['queries'], mv[5]):
-            qs.append(a[0] if (q[0] == 'vsec' and isinstance(a, list) and len(a) == 2) else a)
+        for q, a, ia in zip(s['queries'], mv[5], iv[5]):
+            if q[0] == 'vsec' and isinstance(a, list) and len(a) == 2:
+                if diff(ia, a[0]) is not None and diff(ia, a[1]) is None:
+                    note = ' [implementation = model of the code as written (section taken in the mapped frame)]'
+                qs.append(a[0])
+            else:
+                qs.append(a)
         mv[5] = qs
-    return diff(iv, mv, rtol=RTOL, atol=ATOL)
+    d = diff(iv, mv, rtol=RTOL, atol=ATOL)
+    return (d + note) if d else None
 
 
 # ---------------------------------------------------------------------------------------------
@@ -585,10 +601,6 @@ def fits(a, b, perm, flip, tol=1e-7):
         if _norm_knots(ba['knots'], flip[i]) != _norm_knots(bb['knots'], False):
             return False
     return True
-
-
-def dims_of(o):
-    return len(o['cps'] if not o['bases'] else np.array(o['cps']).shape and np.array(o['cps'])[(0,) * len(o['bases'])]) - (1 if o['rational'] else 0)
 
 
 def jacobian_sign(o):
@@ -666,6 +678,7 @@ def oracle_model(sp, s):
         return fails
     # ---- counts ----------------------------------------------------------------------------------
     nodes, lab = labels(model)
+    quiet = bool(s.get('only_queries'))   # the complex itself is judged by the sibling spec
     for d in range(P + 1):
         if len(nodes[d]) != len(keys_by_dim[d]):
             fails.append('dimension %d: %d nodes for %d distinct entities' % (d, len(nodes[d]), len(keys_by_dim[d])))
@@ -693,38 +706,37 @@ def oracle_model(sp, s):
             fails.append('one node represents %d distinct entities of dimension %d' % (len(eks), next(iter(eks))[0]))
             break
     if fails:
-        return fails
+        return [] if quiet else fails
     key_of_node = {nid: next(iter(eks)) for nid, eks in by_node.items()}
     # ---- interfaces: higher neighbours and boundary ----------------------------------------------
-    if P >= 1:
+    if P >= 1 and not quiet:
         inc = {}
         for (k, d, i), ek in occ.items():
             if d == P - 1:
                 inc.setdefault(ek, []).append(k)
         top = {k: node_of.get((k, P, 0)) for k in range(len(patches))}
+        # expected neighbours of an interface: every adjacent CELL (several patches may be copies of one
+        # cell), as often as the interface occurs among the faces of that cell (self-connection: twice)
+        expected = {}
+        for ek, ks in inc.items():
+            cells = {}
+            for k in ks:
+                cells.setdefault(id(top[k]), []).append(k)
+            want = []
+            for tid, kk in cells.items():
+                want += [lab[tid][1]] * max(kk.count(k) for k in set(kk))
+            expected[ek] = sorted(want)
         for n in nodes[P - 1]:
             ek = key_of_node.get(id(n))
             if ek is None:
                 fails.append('a node of dimension %d is no section of any patch' % (P - 1))
                 continue
-            want = sorted(lab[id(top[k])][1] for k in set(inc[ek]) for _ in range(inc[ek].count(k) if False else 1) if top[k] is not None)
-            # multiplicity: a self-connected patch is its own neighbour twice; duplicates of one cell count once
-            cells = {}
-            for k in inc[ek]:
-                cells.setdefault(id(top[k]), []).append(k)
-            want = []
-            for tid, ks in cells.items():
-                per_patch = max(ks.count(k) for k in set(ks))
-                want += [lab[tid][1]] * per_patch
             got = sorted(lab[id(x)][1] for x in n.higher_nodes.get(P, []))
-            if sorted(want) != got:
-                fails.append('interface %s: higher nodes %s, adjacent cells %s' % (lab[id(n)], got, sorted(want)))
+            if expected[ek] != got:
+                fails.append('interface %s: higher nodes %s, adjacent cells %s' % (lab[id(n)], got, expected[ek]))
         try:
             bnd = sorted(lab[id(n)][1] for n in model.boundary())
-            want = sorted(lab[id(n)][1] for n in nodes[P - 1]
-                          if key_of_node.get(id(n)) is not None and len(n.higher_nodes.get(P, [])) == 1)
-            unshared = sorted(lab[nid][1] for nid, ek in key_of_node.items() if ek[0] == P - 1 and
-                              sum(max([inc[ek].count(k) for k in ks]) for ks in [[k for k in inc[ek] if id(top[k]) == t] for t in {id(top[k]) for k in inc[ek]}]) == 1)
+            unshared = sorted(lab[nid][1] for nid, ek in key_of_node.items() if ek[0] == P - 1 and len(expected[ek]) == 1)
             if bnd != unshared:
                 fails.append('boundary() = %s, unshared faces = %s' % (bnd, unshared))
         except Exception as e:  # noqa: BLE001
@@ -877,36 +889,40 @@ def oracle(sp, s):
 # bookkeeping
 
 
+def vertex_alias(s):
+    """Two geometrically distinct corner points whose pre-multiplied coordinates (the VertexDict key of the
+    code: `cps[..., :-1]`, weight dropped) coincide."""
+    seen = {}
+    for p in s['patches']:
+        if not p['rational']:
+            h = _homog(p)
+        else:
+            h = np.array(p['cps'], dtype=float)
+        d = len(p['bases'])
+        for sec in cx.sections(d, 0):
+            c = h[tuple(sec)]
+            key = tuple(_quant(c[:-1]).tolist())
+            geo = tuple(_quant(c[:-1] / c[-1]).tolist())
+            if seen.setdefault(key, geo) != geo:
+                return True
+    return False
+
+
 def classify(s, res=None):
+    """Known-finding classes (see the report of work package c17)."""
     k = s['kind']
     if res is None:
         return None
-    msgs = ' | '.join(res.get('oracle') or [])
+    msgs = res.get('oracle') or []
     if k == 'model':
-        if 'NodeView.section' in msgs:
+        if s.get('only_queries') and (any('NodeView.section' in m for m in msgs) or (not msgs and res.get('diff'))):
+            # pinned code: NodeView.section takes the section of the reference object in the mapped frame
             return 'nodeview-section-wrong-frame'
-        if res.get('diff') and 'queries' not in msgs and _only_vsec_differs(s, res):
-            return 'nodeview-section-wrong-frame'
-        if 'distinct entities' in msgs or 'nodes for' in msgs:
-            if any(p['rational'] for p in s['patches']):
-                return 'rational-vertex-key-ignores-weight'
+        if msgs and any(p['rational'] for p in s['patches']) and vertex_alias(s):
+            return 'rational-vertex-key-ignores-weight'
     if k == 'compute' and s.get('what') == 'weights-scaled':
         return 'compute-normalises-weights-only'
     return None
-
-
-def _only_vsec_differs(s, res):
-    iv, mv = res.get('impl'), res.get('model')
-    if isinstance(iv, Err) or not isinstance(mv, list) or len(mv) != 6:
-        return False
-    if diff(iv[:5], mv[:5]) is not None:
-        return False
-    for q, a, b in zip(s['queries'], iv[5], mv[5]):
-        if q[0] == 'vsec':
-            continue
-        if diff(a, b) is not None:
-            return False
-    return True
 
 
 def tags(s, res):
